@@ -250,6 +250,9 @@ func parent(ck *checks.Check, tier string, dl time.Duration) int {
 		fmt.Printf("  (%d further findings were not kept)\n", extra)
 	}
 
+	if total.Transitions == 0 {
+		total.Transitions = total.Evaluations // engine E: one transition (input -> rendered symbol) per execution
+	}
 	exhaustive := len(total.Incomplete) == 0
 	wall := time.Since(start).Seconds()
 	// distinct_nontrivial: distinct structure records / states, measured.
